@@ -85,16 +85,35 @@ def _level_db_name(ext, ctor):
     return clause
 
 
+def _timestamp_claim(ctor):
+    def clause(ex, st, post, result):
+        """C12/C13: the clean-up and refresh code trusts cache.supports_timestamp"""
+        import z3
+        made = [e for i, e in T.evs(st, ctor)]
+        if not made:
+            return
+        sp = st.fork()
+        sp.spec = True
+        sp.env = {'self': post.env['self']}
+        claim = ex.truth(sp, ex.ev1(sp, ex.reg.parse_spec('self.supports_timestamp')))
+        kw = made[0].kwargs.get('with_timestamps')
+        yield ('timestamp_support_is_what_the_level_databases_have',
+               claim == ex.truth(st, kw) if kw is not None else z3.Not(claim),
+               'the level cache claims supports_timestamp exactly when it creates its level databases with time stamps (a cache that '
+               'claims them but reports -1 for every tile makes remove_before / refresh_before treat every tile as expired)')
+    return clause
+
+
 for _mod, _cls_, _ext, _ctor, _dictf in (('mapproxy.cache.mbtiles:', 'MBTilesLevelCache', 'mbtile', 'MBTilesCache', '_mbtiles'),
                                           ('mapproxy.cache.geopackage:', 'GeopackageLevelCache', 'gpkg', 'GeopackageCache', '_geopackage')):
     cls(_mod + _cls_, fields={'cache_dir': 'str', _dictf: 'opaque', '_%s_lock' % _dictf.strip('_'): 'opaque', 'timeout': 'opaque',
                               'wal': 'opaque', 'ttl': 'opaque', 'coverage': 'opaque', 'directory_permissions': 'opaque',
                               'file_permissions': 'opaque', 'file_premissions': 'opaque', 'tile_grid': 'opaque', 'table_name': 'opaque'})
-    contract(_mod + _cls_ + '._get_level', props=['C09'],
+    contract(_mod + _cls_ + '._get_level', props=['C09', 'C12'],
              types=dict(level='int'), returns='opaque', default_callee='opaque',
              opaque_spec={_ctor: {'pure': True}}, opaque=[_ctor],
              requires=['level >= 0'],
-             trace=[_level_db_name(_ext, _ctor)])
+             trace=[_level_db_name(_ext, _ctor), _timestamp_claim(_ctor)])
 
 
 # ---- the id in the lock file names is a pure function of the cache location: every process that serves this cache computes the SAME --
